@@ -174,7 +174,7 @@ claim("C11", "other",
       "TTNS/TTNO with symbolic node tensors on enumerated trees (<= 4/5 nodes, 0-2 basis sets per node, dummy nodes): add, scale, copy, todense(order), TTNO.apply, expectation via "
       "TTNEnviron and via full contraction, norm, canonicalise, push_cano, lossless compress, 1-site / 1-dof / 2-site reduced density matrices, dump/load, invariance under "
       "reordering the children of a node, from_mps, product-state constructor with labels - against an independent contraction of the same symbols.",
-      "Entropies NOT covered; LAPACK by contract; zero labels on the symbolic trees; partial operators and tree truncation bounds only in thorough/not covered.",
+      "Entropies NOT covered; LAPACK by contract; the all-topology sweep uses zero labels (one block per node), symmetry blocks are exercised on 5 (8) labelled electron trees in every sector 1..n-1 with repeated labels (add, canonicalise, push_cano both ways, lossless compress, TTNO.apply of a number-conserving operator built by the real constructor, expectation: vector, sector and tree label invariant); partial operators and tree truncation bounds not covered.",
       "symbolic execution of the real tree code with LAPACK contract stubs + independent einsum oracle + z3",
       "DESIGN.md section 1, C11")
 
